@@ -102,6 +102,11 @@ let dispatch cmd r =
   | "cerode" -> let d = next_dt r in let f = next_arr r in let g = next_arr r in let bc = next_arr r in
       out_list (mh_cerode d f g.data bc)
   | "subm_arr" -> let d = next_dt r in let a = next_arr r in let b = next_arr r in out_list (psubm d a.data b.data)
+  | "convolve" -> let m = next_z r in let f = next_arr r in let w = next_arr r in out_list (convolve_generic m f w)
+  | "conv_spec" -> let m = next_z r in let f = next_arr r in let w = next_arr r in out_list (conv_spec_all m f w)
+  | "row_fast" -> let m = next_z r in let row = next_list r in let w = next_list r in let g = next_list r in
+      out_list (row_fast m row w g)
+  | "row_spec" -> let m = next_z r in let row = next_list r in let w = next_list r in out_list (row_spec m row w)
   | _ -> failwith ("unknown command " ^ cmd)
 
 let () =
